@@ -7,6 +7,8 @@ import (
 	"hash/fnv"
 	"reflect"
 	"strings"
+	"sync"
+	"sync/atomic"
 	"time"
 
 	"golang.org/x/crypto/ssh"
@@ -392,7 +394,56 @@ func main() {
 				r.Count("nil certificate", 1)
 			}
 		}
+		population(r)
 		shimListing(r)
 		r.Floor(2000, 100)
 	})
+}
+
+// population: a long-running process derives the type of a great many distinct certificates. Every one of them must
+// get the type its own attributes select, whatever was derived before (a function of the KeyID has no memory).
+// Several workers share the work, as the connections of a shim agent do.
+func population(r *ev.Run) {
+	c := r.Case("population", 0)
+	if c == nil {
+		return
+	}
+	n := r.Pick(320000, 3000000)
+	salt := c.Rand.Uint32()
+	shapes := []attrs{
+		{HW: true, Touch: 3}, {HW: true, Touch: 1}, {HW: true, Touch: 1, Opt: 3}, {FF: true, HW: true, Touch: 3},
+		{FF: true, Touch: 0}, {FF: true, Touch: 0, Opt: 3}, {Nonce: true, HW: true, Touch: 1}, {Touch: 0}, {Headless: true, Touch: 1}, {HW: true, Touch: 2},
+	}
+	workers := 8
+	var wg sync.WaitGroup
+	var bad atomic.Int64
+	for w := 0; w < workers; w++ {
+		wg.Add(1)
+		go func(w int) {
+			defer wg.Done()
+			for i := w; i < n; i += workers {
+				a := shapes[(uint32(i)*2654435761>>7)%uint32(len(shapes))]
+				tid := fmt.Sprintf("%08x", uint32(i)*2246822519+salt)
+				kid := fmt.Sprintf(`{"prins":["u"],"transID":"%s","reqUser":"u","reqIP":"10.1.2.3","reqHost":"h","isFirefighter":%v,"isHWKey":%v,"isHeadless":%v,"isNonce":%v,"touchPolicy":%d,"ver":1}`, tid, a.FF, a.HW, a.Headless, a.Nonce, a.Touch)
+				cert := &ssh.Certificate{KeyId: kid}
+				if a.Opt == 3 {
+					cert.CriticalOptions = map[string]string{optName: "host1"}
+				}
+				want := refType(a)
+				g := int(certutil.GetType(cert))
+				ok := g == want
+				if ok && i%16 == 0 {
+					l, err := certutil.Label(cert)
+					ok = (err == nil) == (want != tUnknown) && (err != nil || l == refName[want]+"SSH-"+tid)
+				}
+				if !ok && bad.Add(1) <= 3 {
+					r.Violation(c, "type-depends-on-earlier-derivations", fmt.Sprintf("certificate %d of a population of %d distinct KeyIDs: %q derived type %d, expected %d", i, n, kid, g, want), a)
+				}
+			}
+		}(w)
+	}
+	wg.Wait()
+	r.Eval(n)
+	r.Count("distinct KeyIDs typed in one process (population)", n)
+	r.Nontrivial(fmt.Sprintf("population:%d", n))
 }
